@@ -16,8 +16,8 @@ RULE = (
     "named primitive ports, unknown module) must raise. non-trivial = >=2 statements; distinct = text"
 )
 BUDGET = {
-    "quick": {"workers": 16, "cases": 40, "secs": 50, "min_cases": 350},
-    "thorough": {"workers": 16, "rounds": 4, "cases": 170, "secs": 260, "min_cases": 4000},
+    "quick": {"workers": 16, "cases": 160, "secs": 60, "min_cases": 1280},
+    "thorough": {"workers": 16, "rounds": 4, "cases": 500, "secs": 420, "min_cases": 16000},
 }
 ANCHORS = ["io:verilog_to_circuit", "parsing.verilog:parse_verilog_netlist", "parsing.verilog:_VerilogCircuitGraphTransformer.module", "parsing.verilog:_VerilogCircuitGraphTransformer.assignment", "parsing.verilog:_VerilogCircuitGraphTransformer.ternary", "parsing.verilog:_VerilogCircuitGraphTransformer.module_instantiation"]
 MUST_CALL = ["io:verilog_to_circuit", "parsing.verilog:parse_verilog_netlist"]
